@@ -7,6 +7,8 @@ import ClipVerif.Proofs.Vertex
 import ClipVerif.Model.AelOrder
 import ClipVerif.Model.Conv
 import ClipVerif.Proofs.AelOrder
+import ClipVerif.Model.IntersectList
+import ClipVerif.Proofs.IntersectList
 /-
 C01 — boolean operations return the set-theoretic region.  Proved here: the local decisions of the
 sweep (everything the engine *decides* from winding counts); the global composition of the sweep is
@@ -217,5 +219,38 @@ theorem insertLeftEdge_sorted (ael : List AelEdge) (ae : AelEdge) (res : List Ae
     (h : insertLeftEdge ael ae = some res) :
     res.Pairwise (fun a b => a.curX.toInt ≤ b.curX.toInt) := by
   exact Proofs.AelOrder.sorted ael ae res hs hj h
+
+/-! ### Re-ordering of the active-edge list at the top of a scanbeam (model `Model.Ix` of
+`buildIntersectList`: the bottom-up merge sort over the `jump` pointers, tied by `models-corr ixlist`).
+`xs` are the x values of the AEL's edges at the top of the beam, edge `i` being the `i`-th of the AEL. -/
+
+/-- the sorted edge list holds every edge of the AEL exactly once … -/
+theorem buildIntersectList_perm (xs : List Int) :
+    (Model.Ix.build xs).1.Perm (Model.Ix.index xs) := by
+  exact Proofs.Ix.build_perm xs
+
+/-- … ordered by x at the top of the beam … -/
+theorem buildIntersectList_sorted (xs : List Int) :
+    (Model.Ix.build xs).1.Pairwise (fun a b => a.2 ≤ b.2) := by
+  exact Proofs.Ix.build_sorted xs
+
+/-- … and edges with equal x keep their order (they do not cross inside the beam) -/
+theorem buildIntersectList_stable (xs : List Int) :
+    (Model.Ix.build xs).1.Pairwise (fun a b => a.2 = b.2 → a.1 < b.1) := by
+  exact Proofs.Ix.build_stable xs
+
+/-- one merge of two sorted runs reports exactly the pairs (edge of the left run, edge of the right run
+    strictly left of it) -/
+theorem buildIntersectList_merge_nodes (l r : List Model.Ix.E)
+    (hl : l.Pairwise (fun a b => a.2 ≤ b.2)) (hr : r.Pairwise (fun a b => a.2 ≤ b.2)) :
+    (Model.Ix.merge l r).2.Perm
+      ((l.map fun a => (r.filter fun b => decide (b.2 < a.2)).map fun b => (a.1, b.1)).flatten) := by
+  exact Proofs.Ix.merge_nodes l r hl hr
+
+/-- every pair of edges that changes order inside the beam (an inversion of the AEL with respect to x at
+    the top) gets exactly one intersect node, and no other pair gets one -/
+theorem buildIntersectList_nodes_exact (xs : List Int) :
+    (Model.Ix.build xs).2.Perm (Model.Ix.inversions xs) := by
+  exact Proofs.Ix.build_nodes xs
 
 end C01
